@@ -76,7 +76,21 @@ def exhaustive_2w1r():
     return out
 
 
+def gen_stress(seed, tier):
+    """real-thread runs: op 30 trials wkind1 wkind2 rkind jitter (see harness/stress_cell.cpp)"""
+    rng = random.Random(seed * 7919 + 303)
+    trials = 3000 if tier == "quick" else 30000
+    cases = []
+    cfgs = [(1, 1, 0), (1, 2, 0), (2, 2, 0), (0, 2, 0), (0, 1, 4), (2, 1, 6), (1, 0, 2), (2, 0, 4)]
+    for j, (a, b, r) in enumerate(cfgs):
+        for jit in (0, 40, 400, 4000):
+            cases.append(Case("cell_stress", "s%d_%d" % (j, jit), [[30, trials + rng.randint(0, 9), a, b, r, jit]]))
+    return cases
+
+
 def nontrivial(case, model_obs):
+    if case.engine == "cell_stress":
+        return True
     # a schedule is non-trivial when at least two different threads take steps before the first one finishes,
     # i.e. the trace is not a concatenation of whole threads
     tids = [l.split()[0] for l in model_obs if len(l.split()) == 2]
@@ -85,6 +99,8 @@ def nontrivial(case, model_obs):
 
 
 def signature(case, impl_obs, model_obs):
+    if case.engine == "cell_stress":
+        return "cell:stress"
     last = impl_obs[-1] if impl_obs else ""
     if last.startswith("CRASH"):
         return "cell:" + last.split()[1]
